@@ -463,7 +463,13 @@ def r4(ctx: Ctx, rep: Report, fams):
                 else:
                     raise AnalysisError("unclassified primitive %s in validator %s (%s)" % (nm, fn.short, fn.loc(n)))
             elif isinstance(n, ast.BinOp) and isinstance(n.op, (ast.Div, ast.FloorDiv, ast.Mod)):
-                raise AnalysisError("division in validator %s (%s) is not modelled" % (fn.short, fn.loc(n)))
+                try:
+                    d = prog.consteval(n.right, fn.module)
+                except NotConst:
+                    d = None
+                rep.check(isinstance(d, (int, float)) and d != 0, "C01.R4", "division:%s:%s" % (fn.short, norm(n)[:40]), fn.loc(n),
+                          "%s divides by the non-zero constant %r" % (norm(n)[:40], d),
+                          bad="%s: %s may divide by zero (ZeroDivisionError is an undocumented outcome)" % (fn.short, norm(n)[:60]))
 
 
 def _to_bytes_total(prog, fn, call):
